@@ -33,6 +33,11 @@ func (x *Exec) valueInstr(st *State, b *ssa.BasicBlock, i int, ins ssa.Value, k 
 		pt := ins.X.Type().Underlying().(*types.Pointer)
 		stt := pt.Elem().Underlying().(*types.Struct)
 		fname := stt.Field(ins.Field).Name()
+		if base.K == KU {
+			// a pointer to an object we do not track (a time.Ticker, a third-party struct): its fields are named
+			// after the value the pointer was read from
+			return SVal{K: KLoc, Loc: provName(base) + "->" + fname, GoT: ins.Type(), Src: provName(base) + "." + fname}, false
+		}
 		if base.K != KLoc {
 			x.unsupp(st, "field address of untracked pointer (%s.%s) in %s at %s", ins.X.Name(), fname, funcKey(ins.Parent()), x.pos(ins.Pos()))
 			return mkU("nil"), false
@@ -386,7 +391,11 @@ func (x *Exec) unop(st *State, ins *ssa.UnOp) SVal {
 				return mkU("nil")
 			}
 			if fields == "" {
-				return x.unbox(st, "(select "+cur.T+" "+idx+")", ins.Type())
+				ev := x.unbox(st, "(select "+cur.T+" "+idx+")", ins.Type())
+				if ev.Src == "" && strings.HasPrefix(arr, "arr@") {
+					ev.Src = strings.TrimPrefix(arr, "arr@") + "[]" // an element of the slice held by that cell
+				}
+				return ev
 			}
 			// element struct type is remembered on the address value
 			if len(v.Elems) == 0 || v.Elems[0].GoT == nil {
